@@ -12,8 +12,9 @@ PROP = 'C05'
 LEVEL = 'exploration'
 DESIGN_REF = 'DESIGN.md 4/C05'
 RULE = ('Hypothesis draws a type T, 1..3 values and a reference encoding of each (all forms); the stream s = e1..en is decoded by '
-        'StreamingDecoder under arrival schedules on three stream doubles that own the schedule (BytesIO with a moving horizon, '
-        'seekable growing stream, non-seekable pipe behind the caching wrapper): ALL 2^(|s|-1) partitions when |s| <= 11, otherwise '
+        'StreamingDecoder under arrival schedules on stream doubles that own the schedule (BytesIO with a moving horizon, '
+        'seekable growing stream, non-seekable pipe behind the caching wrapper; the latter two also handing out at most 1..3 octets '
+        'per read, and with bursts arriving on the reader\'s own read clock): ALL 2^(|s|-1) partitions when |s| <= 11, otherwise '
         'every single cut, cuts around every structural boundary and drawn partitions; empty polls before chunks; end of stream '
         'signalled with or one poll after the last chunk; guided and (self-describing T) unguided. Oracle: objects, order and '
         'final outcome equal those of the same decoder on io.BytesIO(s); every underrun is preceded by a read that found data '
@@ -61,6 +62,7 @@ def reference(codec, s, T, spec):
 
 
 DOUBLES = ('horizon', 'seekable', 'pipe')
+CAPPED = ('seekable-capped', 'pipe-capped')       # hand out at most 1..3 octets per read although more may be there
 
 
 def drive(kind, codec, s, sizes, polls, eof_late, T, spec):
@@ -69,6 +71,10 @@ def drive(kind, codec, s, sizes, polls, eof_late, T, spec):
         st = streams.HorizonBytesIO(s)
     elif kind == 'seekable':
         st = streams.SeekableFeed()
+    elif kind == 'seekable-capped':
+        st = streams.SeekableFeed(max_read=1 + len(sizes) % 3)
+    elif kind == 'pipe-capped':
+        st = streams.PipeFeed(max_read=1 + len(sizes) % 3)
     else:
         st = streams.PipeFeed()
     actions = []
@@ -121,7 +127,10 @@ def drive(kind, codec, s, sizes, polls, eof_late, T, spec):
             if isinstance(x, error.SubstrateUnderrunError):
                 if not st.c.starved:
                     problems.append(('dishonest-underrun', 'underrun reported although no read found data missing'))
-                if not advance():
+                if not advance() and kind not in CAPPED:
+                    # (a double that caps reads makes every multi-octet read look short once: the library documents an
+                    # underrun as "no size bytes readily available", so there the run only has to go on and end - the step
+                    # budget above turns an endless series of underruns into 'livelock')
                     problems.append(('underrun-after-end', 'underrun reported after all data was delivered and the end signalled'))
                     final = 'underrun-after-end'
                     break
@@ -137,9 +146,9 @@ def drive(kind, codec, s, sizes, polls, eof_late, T, spec):
     except Exception as ex:
         final = 'leak:' + type(ex).__name__ + '@' + harness.exc_sig(ex).split('@')[-1]
     if final == 'stop':
-        if kind == 'pipe' and st.q:
+        if kind.startswith('pipe') and st.q:
             problems.append(('unread', '%d octets left unread in the pipe at the end' % len(st.q)))
-        if kind == 'seekable' and st.pos != len(st.buf):
+        if kind.startswith('seekable') and st.pos != len(st.buf):
             problems.append(('unread', 'stream position %d of %d at the end' % (st.pos, len(st.buf))))
     return out, final, problems
 
@@ -282,8 +291,8 @@ def run_case(case, col=None, sched_iter=None):
                 col.exclude('precondition: the decoder misbehaves on the complete input already (C08 / C09)')
             continue
         ref_out, ref_final = ref
-        for sizes, polls, eof_late in scheds:
-            for kind in doubles:
+        for si, (sizes, polls, eof_late) in enumerate(scheds):
+            for kind in (tuple(doubles) + CAPPED if doubles is DOUBLES and si % 3 == 0 else doubles):
                 out, final, problems = drive(kind, codec, s, sizes, polls, eof_late, T, spec)
                 if col is not None:
                     col.case(s + repr((sizes, kind, sname, eof_late, polls)).encode(),
